@@ -257,6 +257,38 @@ func c01(c *core.Ctx) {
 		}
 		c01One(k, m, k.Index%36, k.R.Intn(4))
 	})
+	// every cell (suite x role x header mode) x every size threshold of the inner payload chain x payload kinds whose
+	// body can be sized exactly: combinations of "which suite" with "which size" that random sampling pairs up rarely
+	innerSizes := []int{4, 5, 11, 12, 13, 15, 16, 17, 27, 28, 31, 32, 33, 47, 48, 49, 63, 64, 65, 239, 240, 241, 255, 256, 257, 511, 512, 513, 1023, 1024, 1025, 4091, 4092, 4095, 4096, 4097,
+		8191, 8192, 8193, 16383, 16384, 16385, 32767, 32768, 32769, 65000, 65400}
+	c.Family("cells-x-size-thresholds", 36*len(innerSizes), func(k *core.Case) {
+		ci, inner := k.Index%36, innerSizes[k.Index/36]
+		m := gen.Header(k.R)
+		switch k.R.Intn(4) {
+		case 0:
+			m.Payloads = []abs.Payload{{Kind: abs.PNonce, Data: gen.DataN(k.R, inner-4)}}
+		case 1:
+			m.Payloads = []abs.Payload{{Kind: abs.PVendor, Data: gen.DataN(k.R, inner-4)}}
+		case 2:
+			if inner >= 9 {
+				m.Payloads = []abs.Payload{{Kind: abs.PKE, KE: &abs.KE{Group: 14, Data: gen.DataN(k.R, inner-8)}}}
+			}
+		default: // two payloads adding up
+			if inner > 13 {
+				a := 1 + k.R.Intn(inner-13)
+				m.Payloads = []abs.Payload{{Kind: abs.PNotify, Notify: &abs.Notify{Proto: 1, Type: 16390, Data: gen.DataN(k.R, a)}}, {Kind: abs.PNonce, Data: gen.DataN(k.R, inner-12-a)}}
+			}
+		}
+		if len(m.Payloads) == 0 || !gen.Fits(m, true) {
+			return
+		}
+		if chain, _, err := ref.EncodeChain(m.Payloads, nil); err != nil || len(chain) != inner {
+			k.Count("size_threshold_not_hit(harness)", 1)
+		} else {
+			k.Count("cells_x_size_thresholds", 1)
+		}
+		c01One(k, m, ci, k.R.Intn(4))
+	})
 	c.Family("sessions", c.N(36*30, 36*20000), c01Session)
 	// values the cryptography itself produces only now and then: checksums / ciphertexts / IVs that begin or end with
 	// 0x00 or 0xFF (found by varying the Message ID under a fixed random stream), then the ordinary round trip
@@ -270,7 +302,7 @@ func c01(c *core.Ctx) {
 		}
 	})
 	freshFamily(c, "C01", "fresh-process", c.N(3, 60))
-	c.Require("fresh_process_cases_ok", "searched_crypto_value_found", "sessions", "msg_object_completed-after-plain-encode", "msg_object_header-parsed-from-a-protected-datagram", "msg_object_object-decoded-from-another-datagram", "msg_object_NewMessage")
+	c.Require("cells_x_size_thresholds", "fresh_process_cases_ok", "searched_crypto_value_found", "sessions", "msg_object_completed-after-plain-encode", "msg_object_header-parsed-from-a-protected-datagram", "msg_object_object-decoded-from-another-datagram", "msg_object_NewMessage")
 	c.Family("nokey", c.N(8000, 2000000), func(k *core.Case) {
 		m := gen.Msg(k.R, gen.Opt{AllowBig: k.Index%9 == 0, AllowEmpty: true})
 		if k.Index%4 == 1 && len(m.Payloads) > 0 {
@@ -557,6 +589,16 @@ func c06(c *core.Ctx) {
 		c06Backward(k, gen.Msg(k.R, gen.Opt{Protected: true, AllowEmpty: true, MaxPayloads: 4}), k.Index%36)
 	})
 	c.Family("bwd-empty", 36, func(k *core.Case) { c06Backward(k, gen.Header(k.R), k.Index%36) })
+	c.Family("fwd-cells-x-size-thresholds", 18*32, func(k *core.Case) {
+		sizes := []int{4, 11, 12, 13, 15, 16, 17, 31, 32, 33, 255, 256, 257, 1023, 1024, 1025, 4095, 4096, 4097, 8191, 8192, 8193, 16383, 16384, 16385, 32767, 32768, 32769, 65000, 65400, 240, 241}
+		inner := sizes[k.Index/18%len(sizes)]
+		m := gen.Header(k.R)
+		m.Payloads = []abs.Payload{{Kind: uint8(k.R.Pick(abs.PNonce, abs.PVendor)), Data: gen.DataN(k.R, inner-4)}}
+		if gen.Fits(m, true) {
+			c06Forward(k, m, k.Index%18*2)
+			k.Count("fwd_cells_x_size_thresholds", 1)
+		}
+	})
 	// two DIFFERENT genuine peer messages of equal size whose IV|ciphertext (or ciphertext, or whole SK body up to the
 	// checksum) agree in a weak fingerprint (CRC-32 variants, CRC-64, XOR): the peer holds the key, so it can choose
 	// the ciphertext blocks that lie in its (non-minimal, arbitrary-content) padding and thereby steer the checksum.
@@ -703,7 +745,7 @@ func c06(c *core.Ctx) {
 		k.Distinct(fmt.Sprintf("limit|ok|%s|%d", s.Name(), inner/16))
 	})
 	freshFamily(c, "C06", "fresh-process", c.N(3, 60))
-	c.Require("colliding_ciphertext_pairs_presented", "fresh_process_cases_ok", "searched_crypto_value_found", "payload_list_sent_in_three_messages", "at_limit_refused_with_error", "at_limit_protected_ok", "msg_object_completed-after-plain-encode", "msg_object_header-parsed-from-a-protected-datagram", "msg_object_object-decoded-from-another-datagram", "msg_object_NewMessage")
+	c.Require("fwd_cells_x_size_thresholds", "colliding_ciphertext_pairs_presented", "fresh_process_cases_ok", "searched_crypto_value_found", "payload_list_sent_in_three_messages", "at_limit_refused_with_error", "at_limit_protected_ok", "msg_object_completed-after-plain-encode", "msg_object_header-parsed-from-a-protected-datagram", "msg_object_object-decoded-from-another-datagram", "msg_object_NewMessage")
 }
 
 var _ = message.TypeSK
